@@ -1,4 +1,5 @@
 import NavisModel.Proofs.DistLemmas
+import NavisModel.Proofs.SegmentLemmas
 /-!
 # C05 — tree distances and segment decompositions match their definitions
 
@@ -69,6 +70,84 @@ theorem smallSegmentsOKB_sound (t : Table) (segs : List (List Int)) (h : smallSe
   · intro i hi
     have := hd i hi
     simpa using this
+
+/-! ### Undirected distances -/
+
+/-- **Undirected distances are symmetric** (for any edge-length function, symmetric or not: both
+sides walk *up* to the lowest common ancestor; absent nodes are at distance ∞ either way). -/
+theorem geo_symm (t : Table) (hw : WF t) (len : Int → Int → Nat) (a b : Int) :
+    geo t len false a b = geo t len false b a := geo_symm' hw len a b
+
+/-- **Unreachable exactly across fragments**: the undirected distance of two present nodes is ∞ iff
+they have different roots. -/
+theorem geo_inf_iff_diff_tree (t : Table) (hw : WF t) (len : Int → Int → Nat) (a b : Int)
+    (ha : a ∈ ids t) (hb : b ∈ ids t) : geo t len false a b = none ↔ rootOf t a ≠ rootOf t b :=
+  geo_none_iff hw len ha hb
+
+/-- **A finite undirected distance is the length of an explicit path**: a duplicate-free node list
+from `a` to `b` whose consecutive nodes are adjacent (child→parent on the way up to the lowest
+common ancestor, parent→child on the way down), with `d` the sum of its edge lengths. -/
+theorem geo_eq_path_sum (t : Table) (hw : WF t) (len : Int → Int → Nat) (hs : ∀ a b, len a b = len b a)
+    (a b : Int) (d : Nat) (h : geo t len false a b = some d) :
+    ∃ p : List Int, p.head? = some a ∧ p.getLast? = some b ∧ p.Nodup ∧
+      (∀ k (h1 : k + 1 < p.length),
+        adjacent t (p[k]'(by omega)) (p[k+1]) = true ∨ adjacent t (p[k+1]) (p[k]'(by omega)) = true) ∧
+      d = pathLen len p := by
+  obtain ⟨p, h1, h2, h3, h4, h5⟩ := geo_path hw hs h
+  exact ⟨p, h1, h2, h3, UChain_spec p h4, h5⟩
+
+/-! ### Distance to the root and cable length -/
+
+/-- The root distance of a non-root node is its parent edge plus the parent's root distance. -/
+theorem distToRoot_parent (t : Table) (hw : WF t) (len : Int → Int → Nat) (n : Node) (hn : n ∈ t)
+    (hp : ¬ n.parent < 0) : distToRoot t len n.id = len n.id n.parent + distToRoot t len n.parent :=
+  Navis.Forest.distToRoot_parent hw len hn hp
+
+/-- Roots are at distance 0 from the root. -/
+theorem distToRoot_root (t : Table) (len : Int → Int → Nat) (n : Node) (hn : n ∈ t) (hnd : (ids t).Nodup)
+    (hp : n.parent < 0) : distToRoot t len n.id = 0 :=
+  Navis.Forest.distToRoot_root len (find?_of_mem hnd hn) hp
+
+/-- **Segment lengths add up to the cable length**: any list of child→parent paths whose non-last
+nodes are the non-root nodes once each (the soundness clauses of both checkers) has total length
+`cable`. -/
+theorem segment_lengths_sum_of_partition (t : Table) (hw : WF t) (len : Int → Int → Nat) (segs : List (List Int))
+    (hall : ∀ s ∈ segs, isParentPath t s = true)
+    (hperm : ((segs.filter fun s => s.length > 1).flatMap fun s => s.dropLast).Perm
+      ((t.filter fun n => !isRootNode n).map (·.id))) :
+    (segs.map (pathLen len)).sum = cable t len := sum_pathLen_eq_cable hw.1 len segs hall hperm
+
+/-- Every list accepted by the `segments` checker has total length `cable`. -/
+theorem segment_lengths_sum_to_cable (t : Table) (hw : WF t) (len : Int → Int → Nat) (segs : List (List Int))
+    (h : segmentsOKB t len segs = true) : (segs.map (pathLen len)).sum = cable t len := by
+  have hperm := (segmentsOKB_sound t len segs h).2.1
+  unfold segmentsOKB at h
+  simp only [Bool.and_eq_true, List.all_eq_true] at h
+  exact sum_pathLen_eq_cable hw.1 len segs h.1.1.1 hperm
+
+/-- Every list accepted by the `small_segments` checker has total length `cable`. -/
+theorem small_segment_lengths_sum_to_cable (t : Table) (hw : WF t) (len : Int → Int → Nat) (segs : List (List Int))
+    (h : smallSegmentsOKB t segs = true) : (segs.map (pathLen len)).sum = cable t len := by
+  obtain ⟨h1, h2⟩ := smallSegmentsOKB_sound t segs h
+  exact sum_pathLen_eq_cable hw.1 len segs (fun s hs => (h1 s hs).1) h2
+
+/-! ### The model's small segments satisfy the property -/
+
+/-- **Every non-root node is a non-last element of exactly one small segment** (⇒ each edge lies in
+exactly one small segment). -/
+theorem small_segments_partition (t : Table) (hw : WF t) :
+    (((smallSegments t).filter fun s => s.length > 1).flatMap fun s => s.dropLast).Perm
+      ((t.filter fun n => !isRootNode n).map (·.id)) := smallSegments_cover hw
+
+/-- **`small_segments` is correct**: each segment starts at a non-root leaf/branch point, ends at the
+first branch point/root above it, has only slabs in between, and the segments partition the edges. -/
+theorem smallSegments_correct (t : Table) (hw : WF t) : smallSegmentsOKB t (smallSegments t) = true :=
+  smallSegments_ok hw
+
+/-- The model's small segments add up to the cable length. -/
+theorem smallSegments_sum_to_cable (t : Table) (hw : WF t) (len : Int → Int → Nat) :
+    ((smallSegments t).map (pathLen len)).sum = cable t len :=
+  small_segment_lengths_sum_to_cable t hw len _ (smallSegments_correct t hw)
 
 /-! ### Non-vacuity -/
 def ex : Table := [⟨1, -1, 0, 0, 0, .root⟩, ⟨2, 1, 3, 0, 0, .branch⟩, ⟨3, 2, 6, 0, 0, .end_⟩, ⟨4, 2, 3, 4, 0, .end_⟩, ⟨9, -1, 0, 0, 0, .root⟩]
